@@ -72,6 +72,21 @@ RING_RULES = {
                     'bond to c1} break bond (c1,o1) increase number of '
                     'radical (c1) increase number of radical (o1)}',
 }
+RING_RULES.update({
+    'dehydrogenation to C=C':
+        'rule dh{reactant r1{C? labeled c1 C? labeled c2 single bond to c1 H '
+        'labeled h1 single bond to c1 H labeled h2 single bond to c2} break '
+        'bond (c1,h1) break bond (c2,h2) increase bond order (c1,c2) form '
+        'bond (h1,h2)}',
+    'C=C to diradical':
+        'rule dr{reactant r1{C? labeled c1 C? labeled c2 double bond to c1} '
+        'decrease bond order (c1,c2) increase number of radical (c1) '
+        'increase number of radical (c2)}',
+    '1,2-diradical to C=C':
+        'rule rc{reactant r1{C. labeled c1 C. labeled c2 single bond to c1} '
+        'increase bond order (c1,c2) decrease number of radical (c1) '
+        'decrease number of radical (c2)}',
+})
 DEFAULT_VALENCE = {1: 1, 6: 4, 7: 3, 8: 2}
 
 
@@ -284,7 +299,7 @@ def classify(v):
 
 LEVEL_TEXT = ('Held on every executed (seed set, rule set): single seeds and '
               'pairs x all rule subsets of size <=3 from 10 reaction-SMARTS '
-              'and 4 RING-text rules (quick: a 900-case sample, thorough: '
+              'and 7 RING-text rules (quick: a 900-case sample, thorough: '
               'all); the returned list is compared with an independent '
               'breadth-first closure up to graph isomorphism (both '
               'inclusions, seeds, no duplicates) and termination is bounded '
